@@ -31,10 +31,15 @@ Qed.
 
 Lemma take_app k (a r : bytes) : length a = k -> take k (a ++ r) = Some (a, r).
 Proof.
-  intro L. unfold take. rewrite app_length.
-  destruct (Nat.leb_spec k (length a + length r)); [|lia].
-  subst k. rewrite firstn_app, firstn_all, Nat.sub_diag, skipn_app, skipn_all, Nat.sub_diag. cbn.
-  rewrite app_nil_r. reflexivity.
+  revert k. induction a as [|x a IH]; intros k L; subst k; cbn [length take app]; [reflexivity|].
+  rewrite (IH (length a) eq_refl). reflexivity.
+Qed.
+
+Lemma at_least_le (b : bytes) : forall n, n <= blen b -> at_least b n = true.
+Proof.
+  induction b as [|x b IH]; intros n H; cbn [at_least].
+  - unfold blen in H. cbn in H. apply N.eqb_eq. lia.
+  - destruct (N.eqb_spec n 0); [reflexivity|]. apply IH. unfold blen in *. cbn [length] in H. lia.
 Qed.
 
 (** the additional-information value of the shortest head for [n] *)
@@ -108,15 +113,15 @@ Lemma parse_unfold (fuel : nat) (b : bytes) :
       match major with
       | 0 => Some (CUint arg, r)
       | 1 => Some (CNint arg, r)
-      | 2 => if arg <=? blen r then
+      | 2 => if at_least r arg then
                match take (N.to_nat arg) r with Some (s, r') => Some (CBytes s, r') | None => None end
              else None
-      | 3 => if arg <=? blen r then
+      | 3 => if at_least r arg then
                match take (N.to_nat arg) r with Some (s, r') => Some (CText s, r') | None => None end
              else None
       | 4 => match fuel with
              | O => None
-             | S f => if arg <=? blen r then
+             | S f => if at_least r arg then
                         match parse_seq (parse f) (N.to_nat arg) r with
                         | Some (l, r') => Some (CArray l, r')
                         | None => None
@@ -125,7 +130,7 @@ Lemma parse_unfold (fuel : nat) (b : bytes) :
              end
       | 5 => match fuel with
              | O => None
-             | S f => if 2 * arg <=? blen r then
+             | S f => if at_least r (2 * arg) then
                         match parse_seq (fun b0 => match parse f b0 with
                                                    | Some (k, b1) => match parse f b1 with
                                                                      | Some (v, b2) => Some ((k, v), b2)
@@ -170,16 +175,15 @@ Proof.
   - rewrite parse_head_head by lia. reflexivity.
   - rewrite parse_head_head by lia. reflexivity.
   - rewrite <- app_assoc, parse_head_head by lia. cbv iota.
-    destruct (N.leb_spec (blen b) (blen (b ++ rest))) as [_|X]; [|unfold blen in X; rewrite app_length in X; lia].
+    rewrite at_least_le by (unfold blen; rewrite app_length; lia).
     unfold blen. rewrite Nat2N.id, take_app by reflexivity. reflexivity.
   - rewrite <- app_assoc, parse_head_head by lia. cbv iota.
-    destruct (N.leb_spec (blen b) (blen (b ++ rest))) as [_|X]; [|unfold blen in X; rewrite app_length in X; lia].
+    rewrite at_least_le by (unfold blen; rewrite app_length; lia).
     unfold blen. rewrite Nat2N.id, take_app by reflexivity. reflexivity.
   - destruct Hw as [Hl Hw]. destruct fuel as [|f]; [lia|].
     rewrite <- app_assoc, parse_head_head by lia. cbv iota.
     pose proof (flat_map_enc_length l) as FL.
-    destruct (N.leb_spec (N.of_nat (length l)) (blen (flat_map enc l ++ rest))) as [_|X];
-      [|unfold blen in X; rewrite app_length in X; lia].
+    rewrite at_least_le by (unfold blen; rewrite app_length; lia).
     rewrite Nat2N.id, (parse_seq_ok (parse f) enc l); [reflexivity|].
     intros x Hx r. apply IH.
     + clear - Hs Hx. induction l as [|y l IHl]; [destruct Hx|]. cbn in Hs. destruct Hx as [->|Hx]; [lia|]. apply IHl; [lia|exact Hx].
@@ -188,8 +192,7 @@ Proof.
   - destruct Hw as [Hl Hw]. destruct fuel as [|f]; [lia|].
     rewrite <- app_assoc, parse_head_head by lia. cbv iota.
     pose proof (flat_map_pair_length l) as FL.
-    destruct (N.leb_spec (2 * N.of_nat (length l)) (blen (flat_map (fun kv => enc (fst kv) ++ enc (snd kv)) l ++ rest))) as [_|X];
-      [|unfold blen in X; rewrite app_length in X; lia].
+    rewrite at_least_le by (unfold blen; rewrite app_length; lia).
     rewrite Nat2N.id.
     rewrite (parse_seq_ok _ (fun kv => enc (fst kv) ++ enc (snd kv)) l); [reflexivity|].
     intros [k v] Hx r. cbn [fst snd]. rewrite <- app_assoc.
